@@ -397,7 +397,11 @@ func mutate(t *rapid.T, m *mnode) string {
 		if i < 0 {
 			return ""
 		}
-		switch rapid.IntRange(0, 2).Draw(t, "rc") {
+		switch rapid.IntRange(0, 4).Draw(t, "rc") {
+		case 3: // loads fine but is not UnixFS: no links, undecodable Data
+			m.Links[i].Child, m.Links[i].Missing = &mnode{HasData: true, Garbage: []byte{0xff, 0xff, 0x01}}, false
+		case 4: // loads fine, no Data at all
+			m.Links[i].Child, m.Links[i].Missing = &mnode{}, false
 		case 0:
 			m.Links[i].Child, m.Links[i].Missing = &mnode{IsRaw: true, Raw: []byte("xyz")}, false
 		case 1:
